@@ -26,6 +26,10 @@ Structure of this file (helper lemmas are in `Lemmas/C10.lean`; vocabulary — `
    external processes) and `pdf_selected_multiset` / `pdf_selected_independent` (the multiset of results);
 4b. pipelines ("inserting such an element into a pipeline never alters values meant for other
    elements"): `pipe_passes`, `insert_invisible_before/after`, `pipeline_interleave`;
+4c. loops that yield more after the flow (`GroupPlots`): `interleave_law_tail`, `groupPlots_interleave`;
+4d. the locality hypothesis of the token model: `Local`, `CtxLocal`, `shared_eq_loop_of_local` (under locality
+   Python's reference semantics is the value-passing semantics of this file), `…_ctxLocal` for the output
+   elements, `write_shared_interleave`; the examples of section 5 show that without it the property fails;
 5. non-vacuity examples.
 All theorems are for flows, interleavings, element settings, schedules and inner sequences of any size. -/
 
@@ -634,7 +638,7 @@ theorem interleave_law_tail (f : σ → α → Step σ α) (fin : σ → Step σ
         blocks := mergeBlocks (loop f s A).err.isSome p (loopTail f fin s A).blocks B } := by
   simp only [loopTail]
   rw [interleave_law f sel hp p A B s hpat hB]
-  cases h : (loop f s A).err <;> simp [h]
+  cases h : (loop f s A).err <;> first | simp | simp [h]
 
 /-- `GroupPlots`: values rejected by `select` pass — whatever `group_by` and `yield_selected` are -/
 theorem groupPlots_passes (cfg : GPCfg) : Passes (groupPlotsStep cfg) cfg.select := by
